@@ -1066,7 +1066,10 @@ def oracles(case):
 
 def mirror(ck_driver, case):
     """Run the case's labels through `bqdriver crash`; returns (diffs, stats)."""
-    out = ck_driver('crash', case.lines)
+    return mirror_answers(case, ck_driver('crash', case.lines))
+
+
+def mirror_answers(case, out):
     diffs = []
     stats = {'crit': 0, 'growth': 0, 'pot0': None, 'pot': None}
     if len(out) != len(case.lines):
@@ -1266,10 +1269,22 @@ def _quiet():
 SMALL = [[('submit', 1, 2, 0), ('result', 0)]]
 
 
-def run_one(topo, ncl, script, seed, prefix, fault, second):
-    case = Case(topo, ncl, script, seed, prefix, fault, second).run()
-    diffs, stats = mirror(drv, case)
-    bad = oracles(case) if not diffs or True else []
+def run_batch(specs):
+    """Run the cases, mirror them through ONE driver process."""
+    cases = [Case(*sp).run() for sp in specs]
+    lines = [ln for c in cases for ln in c.lines]
+    out = drv('crash', lines)
+    res, k = [], 0
+    for sp, c in zip(specs, cases):
+        res.append(summarise(sp, c, out[k:k + len(c.lines)]))
+        k += len(c.lines)
+    return res
+
+
+def summarise(spec, case, answers):
+    topo, ncl, script, seed, prefix, fault, second = spec
+    diffs, stats = mirror_answers(case, answers)
+    bad = oracles(case)
     bound_ok = True
     if stats['pot0'] is not None and stats['pot'] is not None:
         bound_ok = stats['pot'] + stats['crit'] <= stats['pot0'] + stats['growth']
@@ -1312,17 +1327,17 @@ def phase_of(case):
 def chunk_exhaustive(args):
     """every prefix x every victim of one small workload"""
     _quiet()
-    topo, ncl, script, seed = args
+    topo, ncl, script, seed, stride, offset = args
     base = Case(topo, ncl, script, seed, 10 ** 6, None).run()
     T = base.steps
     n = len(TOPOS[topo][1])
-    res = [run_one(topo, ncl, script, seed, 10 ** 6, None, None)]
-    for prefix in range(T + 1):
+    specs = [(topo, ncl, script, seed, 10 ** 6, None, None)]
+    for prefix in range(offset, T + 1, stride):
         for victim in range(1, n):
             trunc = (prefix + victim) % 3 == 0
-            res.append(run_one(topo, ncl, script, seed, prefix,
-                               ('crash', victim, trunc), None))
-    return res
+            specs.append((topo, ncl, script, seed, prefix,
+                          ('crash', victim, trunc), None))
+    return run_batch(specs)
 
 
 def chunk_sampled(args):
@@ -1334,7 +1349,7 @@ def chunk_sampled(args):
     T = base.steps
     n = len(TOPOS[topo][1])
     kinds = [k for _, k in TOPOS[topo][1]]
-    res = [run_one(topo, ncl, script, seed, 10 ** 6, None, None)]
+    specs = [(topo, ncl, script, seed, 10 ** 6, None, None)]
     for _ in range(count):
         prefix = rng.randrange(T + 1)
         victim = rng.randrange(1, n)
@@ -1349,8 +1364,8 @@ def chunk_sampled(args):
         if rng.random() < 0.4:
             second = (rng.randrange(0, 10), rng.randrange(1, n),
                       rng.random() < 0.3)
-        res.append(run_one(topo, ncl, script, seed, prefix, fault, second))
-    return res
+        specs.append((topo, ncl, script, seed, prefix, fault, second))
+    return run_batch(specs)
 
 
 KNOWN_WHAT = {
@@ -1367,27 +1382,38 @@ def run(ck: Check):
     import multiprocessing as mp
     _quiet()
     thorough = ck.tier == 'thorough'
-    for p in H.check_attr_lists():
-        ck.violation('harness-attr-drift', 'the attributes a runtime '
-                     f'__init__ creates changed: {p}', {'problem': p},
-                     found_input=False)
-    if not ck.lean_obligations():
-        ck.violation('lean-obligations', 'Props/C14.lean does not check: '
-                     + (ck.proof_failure or '')[-1500:], {}, found_input=False)
-
-    # (A2) real processes, concurrently with the in-process batch
+    # (A2) real processes run concurrently with everything else
     a2 = {'results': [], 'skipped': None}
     a2_thread = threading.Thread(target=_a2_batch, args=(ck, a2, thorough),
                                  daemon=True)
     a2_thread.start()
+    for p in H.check_attr_lists():
+        ck.violation('harness-attr-drift', 'the attributes a runtime '
+                     f'__init__ creates changed: {p}', {'problem': p},
+                     found_input=False)
+    t0 = time.time()
+    ok = ck.lean_obligations()
+    ck.coverage['seconds_lean'] = round(time.time() - t0, 1)
+    if not ok:
+        ck.violation('lean-obligations', 'Props/C14.lean does not check: '
+                     + (ck.proof_failure or '')[-1500:], {}, found_input=False)
 
     rng = ck.rng
     chunks = []
-    ex_topos = ['att2', 'det1x2'] if not thorough else \
-        ['att2', 'att3', 'det1x2', 'det2x1', 'deep']
-    for topo in ex_topos:
-        chunks.append(('ex', (topo, 1, SMALL, rng.randrange(10 ** 6))))
-    per = 6 if not thorough else 40
+    if thorough:
+        for topo in ['att2', 'att3', 'det1x2', 'det2x1', 'deep']:
+            sd = rng.randrange(10 ** 6)
+            for off in range(4):    # every prefix, spread over 4 processes
+                chunks.append(('ex', (topo, 1, SMALL, sd, 4, off)))
+    else:
+        # every prefix of the attached workload, every 3rd (seed-rotated) of
+        # the detached one
+        sd = rng.randrange(10 ** 6)
+        chunks.append(('ex', ('att2', 1, SMALL, sd, 2, 0)))
+        chunks.append(('ex', ('att2', 1, SMALL, sd, 2, 1)))
+        chunks.append(('ex', ('det1x2', 1, SMALL, rng.randrange(10 ** 6), 3,
+                              ck.seed % 3)))
+    per = 5 if not thorough else 40
     plan = [('att2', 1), ('att3', 1), ('det1x2', 1), ('det1x2', 2),
             ('det2x1', 2), ('det2x2', 1), ('deep', 1), ('deep', 2)]
     reps = 1 if not thorough else 6
@@ -1398,6 +1424,14 @@ def run(ck: Check):
                                   per)))
     nproc = min(8, len(chunks))
     results = []
+    t0 = time.time()
+    # import everything once, before forking the pool
+    from bqskit.ir.circuit import Circuit  # noqa: F401
+    import bqskit.compiler.compiler  # noqa: F401
+    import bqskit.runtime.attached  # noqa: F401
+    import bqskit.runtime.manager  # noqa: F401
+    import bqskit.runtime.worker  # noqa: F401
+    C14Pass(0, 1, 1, 0)
     with mp.get_context('fork').Pool(nproc) as pool:
         asyncs = [pool.apply_async(
             chunk_exhaustive if k == 'ex' else chunk_sampled, (a,))
@@ -1405,6 +1439,7 @@ def run(ck: Check):
         for a in asyncs:
             results += a.get(timeout=1500 if thorough else 600)
 
+    ck.coverage['seconds_inproc'] = round(time.time() - t0, 1)
     n_faulted = 0
     for r in results:
         ck.count((r['args'][0], r['args'][4], r['args'][5], r['args'][6],
@@ -1452,7 +1487,10 @@ def run(ck: Check):
         ck.violation(sig, f'Compiler call {key}: {outcome}',
                      {'kind': 'client', 'case': key}, found_input=True)
 
+    t0 = time.time()
     a2_thread.join(timeout=2400 if thorough else 420)
+    ck.coverage['seconds_waiting_for_real_process_batch'] = round(
+        time.time() - t0, 1)
     if a2_thread.is_alive():
         raise InfraError('real-process batch did not finish')
     _a2_report(ck, a2)
@@ -1496,8 +1534,13 @@ def _a2_batch(ck, a2, thorough):
         return
     try:
         rng = random.Random(ck.seed * 7 + 1)
-        cases = P.default_cases(rng, 200 if thorough else 6)
-        t_end = time.time() + (1800 if thorough else 130)
+        cases = P.default_cases(rng, 220 if thorough else 6)
+        if not thorough:
+            # time-boxed: start with a seed-dependent case so that the seeds
+            # together cover the core matrix
+            k = ck.seed % len(cases)
+            cases = cases[k:] + cases[:k]
+        t_end = time.time() + (1700 if thorough else 70)
         for case in cases:
             if time.time() > t_end:
                 a2['skipped'] = (a2['skipped'] or '') + \
